@@ -128,6 +128,18 @@ func (c qCase) viaTracker() (string, bool) {
 		t.RecordVote(k, v)
 	}
 	_, _, vr := t.TallyVotes()
+	// QuorumActive (the CheckQuorum test): a peer counts as recently active iff it voted yes in this case; by the
+	// text of C12/C17 the leader has an active quorum exactly when a strict majority of EVERY voter set is active
+	active := map[uint64]bool{}
+	for id, pr := range t.Progress {
+		pr.RecentActive = c.Votes[id]
+		active[id] = pr.RecentActive
+	}
+	qa := t.QuorumActive()
+	want := oracleVote(c.C0, active) == "won" && oracleVote(c.C1, active) == "won"
+	if qa != want {
+		return fmt.Sprintf("ci=%s vr=%s QuorumActive=%v but by definition %v", fmtIdx(quorum.Index(t.Committed())), fmtVR(vr), qa, want), true
+	}
 	return fmt.Sprintf("ci=%s vr=%s", fmtIdx(quorum.Index(t.Committed())), fmtVR(vr)), true
 }
 
